@@ -28,7 +28,7 @@ PROBES = {"C19": ["second_crash_during_resume", "crash_between_train_and_test_pr
                   "overwrite_run", "rerun_same_process", "presplit_cv",
                   "clock_backwards_seen", "kill_not_exception",
                   "options_changed_between_runs", "ram_store", "features_reordered", "benchmark_extended_later",
-                  "target_column_not_last",
+                  "target_column_not_last", "label_aware_cv", "tuning_meta_estimator",
                   "presplit_labels_interleaved"]}
 FAULT_KINDS = {"C19": ["peer_raises@k", "crash_restart", "rerun_same_process",
                        "clock_jump_fwd", "clock_jump_back"]}
@@ -56,8 +56,8 @@ def generate(prop, rng, tier):
     kind = rng.choice(["tsc", "tsc", "tsr"])
     store = "hdd" if rng.random() < 0.85 else "ram"
     n_ds = rng.choice([1, 1, 2, 2, 3] if big else [1, 1, 2])
-    cvt = rng.choice(["kfold", "kfold", "single", "presplit", "presplit_inner"])
-    if kind == "tsr" and cvt.startswith("presplit"):
+    cvt = rng.choice(["kfold", "kfold", "single", "presplit", "presplit_inner", "stratified"])
+    if kind == "tsr" and (cvt.startswith("presplit") or cvt == "stratified"):
         cvt = "kfold"
     datasets = []
     # (listed in an arbitrary, not necessarily alphabetical, order)
@@ -82,6 +82,13 @@ def generate(prop, rng, tier):
               "shuffle": rng.random() < 0.5, "rs": rng.randint(0, 99)}
         if not cv["shuffle"]:
             cv["rs"] = None
+    elif cvt == "stratified":
+        # a scheme that reads the class labels (every class has at least two instances)
+        cv = {"type": "stratified", "k": 2, "shuffle": rng.random() < 0.5, "rs": rng.randint(0, 99)}
+        if not cv["shuffle"]:
+            cv["rs"] = None
+        for ds in datasets:
+            ds["source"] = "ram"
     elif cvt == "single":
         cv = {"type": "single", "test_size": rng.choice([0.25, 0.34, 0.5, 2]),
               "rs": rng.randint(0, 99), "shuffle": rng.random() < 0.7}
@@ -124,6 +131,8 @@ def generate(prop, rng, tier):
         "kind": kind, "store": store, "datasets": datasets,
         "data_seed": rng.randint(0, 10 ** 6), "strategies": strategies,
         "features": features, "cv": cv, "runs": runs,
+        # strategies whose estimator is a tuning meta-estimator around the estimator
+        "tuned": rng.sample(strategies, 1) if rng.random() < 0.25 else [],
         "enumerate_first": store == "hdd",
         "second_crash_frac": rng.random() if rng.random() < 0.6 else None,
         "second_crash_mod": rng.randrange(3),
@@ -258,11 +267,13 @@ class World:
         self.raw = shared.raw
 
     def make_cv(self):
-        from sklearn.model_selection import KFold
+        from sklearn.model_selection import KFold, StratifiedKFold
         from sktime.series_as_features.model_selection import PresplitFilesCV, SingleSplit
         c = self.scen["cv"]
         if c["type"] == "kfold":
             return KFold(n_splits=c["k"], shuffle=c["shuffle"], random_state=c["rs"])
+        if c["type"] == "stratified":
+            return StratifiedKFold(n_splits=c["k"], shuffle=c["shuffle"], random_state=c["rs"])
         if c["type"] == "single":
             return SingleSplit(test_size=c["test_size"], random_state=c["rs"],
                                shuffle=c["shuffle"])
@@ -317,9 +328,11 @@ class World:
         return out
 
     def make_estimator(self, name):
-        if self.scen["kind"] == "tsc":
-            return peers.SpyClassifier(tag=name)
-        return peers.SpyRegressor(tag=name)
+        spy = peers.SpyClassifier(tag=name) if self.scen["kind"] == "tsc" else peers.SpyRegressor(tag=name)
+        if name in (self.scen.get("tuned") or []):
+            # the strategy's estimator is a tuning meta-estimator (scikit-learn grid search)
+            return peers.quiet_search(spy)
+        return spy
 
     def make_strategies(self, names=None):
         from sktime.benchmarking.strategies import TSCStrategy, TSRStrategy
@@ -357,9 +370,13 @@ class World:
         c = self.scen["cv"]
         n = len(frame)
         idx = np.arange(n)
-        if c["type"] == "kfold":
-            cv = KFold(n_splits=c["k"], shuffle=c["shuffle"], random_state=c["rs"])
-            return [(np.asarray(tr), np.asarray(te)) for tr, te in cv.split(frame, frame["target"])]
+        if c["type"] in ("kfold", "stratified"):
+            from sklearn.model_selection import StratifiedKFold
+            cv = (KFold if c["type"] == "kfold" else StratifiedKFold)(
+                n_splits=c["k"], shuffle=c["shuffle"], random_state=c["rs"])
+            # (a scheme that looks at the labels is given the TARGET column, wherever it stands)
+            return [(np.asarray(tr), np.asarray(te))
+                    for tr, te in cv.split(np.zeros(n), np.asarray(frame["target"]))]
         if c["type"] == "single":
             tr, te = train_test_split(idx, test_size=c["test_size"], train_size=None,
                                       random_state=c["rs"], shuffle=c["shuffle"], stratify=None)
@@ -952,12 +969,17 @@ def execute(prop, scen):
             res.probe("presplit_labels_interleaved")
         if ds["source"] != "uea" and ds.get("target_pos", "last") != "last":
             res.probe("target_column_not_last")
-    res.real.add({"kfold": "sklearn.KFold", "single": "series_as_features.model_selection.SingleSplit",
+    res.real.add({"kfold": "sklearn.KFold", "stratified": "sklearn.StratifiedKFold", "single": "series_as_features.model_selection.SingleSplit",
                   "presplit": "series_as_features.model_selection.PresplitFilesCV"}[scen["cv"]["type"]])
     res.stub.update(["SpyClassifier" if scen["kind"] == "tsc" else "SpyRegressor",
                      "SimClock(pd.Timestamp.now in orchestration.py)"])
     if scen["cv"]["type"] == "presplit":
         res.probe("presplit_cv")
+    if scen["cv"]["type"] == "stratified":
+        res.probe("label_aware_cv")
+    if scen.get("tuned"):
+        res.probe("tuning_meta_estimator")
+        res.real.add("sklearn.GridSearchCV (subclassed for bookkeeping only)")
     if scen["features"] == "reversed":
         res.probe("features_reordered")
     runs = scen["runs"]
